@@ -111,6 +111,7 @@ type finalOracle struct {
 	prop       string
 	lastChange time.Duration
 	lastSig    string
+	finishedBy string // C07: incarnation that recorded the pending request as succeeded
 }
 
 func (o *finalOracle) name() string { return o.prop + "-final" }
@@ -126,6 +127,32 @@ func (o *finalOracle) onIterLeave(it *iterRec) {
 }
 
 func (o *finalOracle) stableFor() time.Duration { return o.m.s.now() - o.lastChange }
+
+// C07, while the run lasts: once the next manager has recorded the request as succeeded, the
+// incarnation that lost the coordination service in the middle of it makes nothing writable
+func (o *finalOracle) onZK(e *ZKEvent) {
+	if o.prop != "C07" || e.Err != 0 || !o.m.isDaemon(e.Inc) {
+		return
+	}
+	switch {
+	case e.Path == "/test/last_switch" && (e.Op == "set" || e.Op == "create"):
+		if sw := parseSwitch(e.Data); sw != nil && sw.Result != nil && sw.Result.Ok {
+			o.finishedBy = e.Inc
+		}
+	case e.Path == "/test/switch" && e.Op == "create":
+		o.finishedBy = ""
+	}
+}
+
+func (o *finalOracle) onSQL(ev *SQLEvent) {
+	m := o.m
+	if o.prop != "C07" || o.finishedBy == "" || !ev.Applied || !ev.Effective || ev.Query != "SET GLOBAL read_only = 0" || !m.isDaemon(ev.Src) {
+		return
+	}
+	if ev.Src != o.finishedBy && m.switchRaw == "" && ev.Dst != m.master && m.lockOwner != ev.Src {
+		m.violate("C07", "second_master", "node-made-writable-by-the-deposed-manager-after-the-request-was-finished", fmt.Sprintf("%s made %s writable after %s had finished the request with master %s", ev.Src, ev.Dst, o.finishedBy, m.master))
+	}
+}
 
 func (o *finalOracle) atEnd() {
 	m := o.m
